@@ -199,6 +199,11 @@ def cases(rng, tier):
         # dotted beats): the measure maps must not depend on the beat mode
         if rng.random() < 0.3:
             d["musical_mode"] = True
+        if rng.random() < 0.35:
+            nobj = len(d["ts"]) + len(d["ks"]) + len(d["clefs"]) + len(d["ms"]) + len(d["notes"]) + len(d.get("words", [])) + len(d.get("dirs", []))
+            if nobj >= 2:
+                d["warm"] = rng.randint(1, nobj - 1)
+                d["rev"] = d.get("rev") or rng.random() < 0.6  # adding from the end makes the timeline grow to the left
         yield d
 
 
@@ -226,7 +231,17 @@ def build(desc):
         objs.append((t, None, S.LoudnessDirection("f", staff=st)))
     if desc.get("rev"):
         objs.sort(key=lambda o: -o[0])  # stable: coincident elements keep their relative order
-    for t, e, o in objs:
+    warm = desc.get("warm")
+    for k, (t, e, o) in enumerate(objs):
+        if warm is not None and k == warm:
+            # the maps are views of the part as it is NOW: querying them while the part is half built and then
+            # going on editing must not leave anything stale behind
+            for nm in ("time_signature_map", "key_signature_map", "clef_map", "measure_map", "measure_number_map",
+                       "metrical_position_map"):
+                try:
+                    getattr(part, nm)(0)
+                except Exception:
+                    pass
         part.add(o, t, e)
     if desc.get("musical_mode"):
         part.use_musical_beat()
